@@ -12,7 +12,7 @@
     * `prec_matches_grammar…` the precedence levels used by the model are those of Vtl.g4's alternative order
                           (table regenerated from the grammar on every run).
   `unparenthesised_counter` shows why NF is needed: ASTString never inserts parentheses.
-  Number literals: see the `literal_*` theorems (model in Text/Literal.lean).
+  Number literals: see the `literal_*` theorems (model in Text/Literal.lean; `handle` = the code since 62b5ed8).
 -/
 import VtlModel.Text.PrettyLemmas
 import VtlModel.Text.PrettyGrammar
@@ -79,60 +79,63 @@ example : parse [.id "a", .sym .minus, .sym .minus, .lit "1", .sym .mul, .id "b"
     some (.bin .sub (.var "a") (.bin .mul (.un .minus (.const "1")) (.var "b"))) := rfl
 
 /-! ## Number literals (`_handle_literal`, model in Text/Literal.lean: decimal digit lists, no Float).
-    `handle (I, F)` is the string ASTString prints for the literal `I.F`; `.error .indexError` is the
-    IndexError of `str(value).split(".")[1]`; `.ok none` = outside the model's exact domain. -/
+    `handle (I, F)` is the string ASTString prints for the literal `I.F` since /repo 62b5ed8
+    (`format(Decimal(repr(value)), "f")`, a trailing `.0` stripped); `.ok none` = outside the model's
+    domain (more than 15 significant digits).  `handleLegacy` is the function of the pinned commit. -/
 section Literals
 open VtlModel.Text.Literal
 
-/-- exact band of the `:f` branch: a canonical literal with 5 or 6 fractional digits, at most 9 integer
-    digits and value ≥ 1e-4 is printed as itself. -/
-theorem literal_roundtrip_partial_f (I F : Digits) (hI : canonI I = I) (hF : canonF F = F)
-    (hk5 : 5 ≤ F.length) (hk6 : F.length ≤ 6) (hI9 : I.length ≤ 9) (hlo : I ≠ [0] ∨ lz F ≤ 3) :
-    handle (I, F) = .ok (some (text I ++ '.' :: text F)) :=
-  literal_roundtrip_f I F hI hF hk5 hk6 hI9 hlo
+/-- every literal of the domain whose value is not integral is printed as its canonical lexeme … -/
+theorem literal_prints_canonical (I F : Digits) (hin : inD (I, F) = true) (hnz : canonF F ≠ [0]) :
+    handle (I, F) = .ok (some (render (I, F))) := by
+  simp [handle, hin, hnz]
 
-/-- exact band of the `:g` branch: a canonical, non-integral literal with at most 4 fractional digits and
-    at most 6 significant digits is printed as itself. -/
-theorem literal_roundtrip_partial_g (I F : Digits) (hI : canonI I = I) (hF : canonF F = F)
-    (h0 : F ≠ [0]) (hk : F.length ≤ 4) (hs6 : (sig (I, F)).length ≤ 6) :
-    handle (I, F) = .ok (some (text I ++ '.' :: text F)) :=
-  literal_roundtrip_g I F hI hF h0 hk hs6
-
-/-- what the property needs and a canonical decimal renderer provides for EVERY literal (the proposed patch):
-    the output re-lexes to one NUMBER_CONSTANT with the same value. -/
+/-- … and that output re-lexes to ONE NUMBER_CONSTANT with the same value (for every literal, any length). -/
 theorem literal_render_preserves (I F : Digits) (hdI : ∀ d ∈ I, d < 10) (hdF : ∀ d ∈ F, d < 10) :
     preserves (I, F) (render (I, F)) = true :=
   preserves_render I F hdI hdF
 
-/-- outside those bands the full statement is FALSE on this tree (each witness is replayed on the real code):
-    0.123456789 ↦ 0.123457, 123.4567 ↦ 123.457, 1234567.0 ↦ 1.23457e+06, 5.0 ↦ 5, 0.00000015 ↦ `0.`,
-    9.9999996 ↦ `10.`, 0.00001 and 1e20 ↦ IndexError. -/
-theorem literal_counter :
-    handle ([0], [1,2,3,4,5,6,7,8,9]) = .ok (some "0.123457".toList) ∧
-    handle ([1,2,3], [4,5,6,7]) = .ok (some "123.457".toList) ∧
-    handle ([1,2,3,4,5,6,7], [0]) = .ok (some "1.23457e+06".toList) ∧
-    handle ([5], [0]) = .ok (some "5".toList) ∧
-    handle ([0], [0,0,0,0,0,0,1,5]) = .ok (some "0.".toList) ∧
-    handle ([9], [9,9,9,9,9,9,6]) = .ok (some "10.".toList) ∧
-    handle ([0], [0,0,0,0,1]) = .error .indexError ∧
-    handle ([1,0,0,0,0,0,0,0,0,0,0,0,0,0,0,0,0,0,0,0,0], [0]) = .error .indexError :=
-  ⟨counter_f_rounds, counter_g_rounds, counter_g_exponent, counter_integral, counter_tiny,
-   counter_dangling_dot, counter_small_indexError, counter_big_indexError⟩
+/-- the two together: inside the domain a non-integral Number literal survives rendering. -/
+theorem literal_roundtrip (I F : Digits) (hdI : ∀ d ∈ I, d < 10) (hdF : ∀ d ∈ F, d < 10)
+    (hin : inD (I, F) = true) (hnz : canonF F ≠ [0]) :
+    ∃ out, handle (I, F) = .ok (some out) ∧ preserves (I, F) out = true :=
+  ⟨render (I, F), literal_prints_canonical I F hin hnz, preserves_render I F hdI hdF⟩
 
-/-- … and none of those outputs is a NUMBER_CONSTANT token with the value of the literal. -/
-theorem literal_counter_not_preserved :
-    preserves ([0], [1,2,3,4,5,6,7,8,9]) "0.123457".toList = false ∧
-    preserves ([1,2,3], [4,5,6,7]) "123.457".toList = false ∧
-    preserves ([1,2,3,4,5,6,7], [0]) "1.23457e+06".toList = false ∧
-    preserves ([5], [0]) "5".toList = false ∧
-    preserves ([0], [0,0,0,0,0,0,1,5]) "0.".toList = false ∧
-    preserves ([9], [9,9,9,9,9,9,6]) "10.".toList = false ∧
-    preserves ([1,2,3,4,5,6], [5]) "123456".toList = false :=
-  counter_not_preserved
+/-- an integral value is printed without its fraction … -/
+theorem literal_integral_form (I F : Digits) (hin : inD (I, F) = true) (hz : canonF F = [0]) :
+    handle (I, F) = .ok (some (text (canonI I))) := by
+  simp [handle, hin, hz]
 
-/- non-vacuity of the two exact bands -/
+/-- … which re-lexes as an INTEGER_CONSTANT: the full statement is still FALSE for integral Number literals
+    (`5.0` ↦ `5`, known finding; the form is pinned by an upstream reference output). -/
+theorem literal_integral_counter :
+    handle ([5], [0]) = .ok (some "5".toList) ∧ preserves ([5], [0]) "5".toList = false ∧
+    handle ([1,2,3,4,5,6,7], [0]) = .ok (some "1234567".toList) ∧
+    preserves ([1,2,3,4,5,6,7], [0]) "1234567".toList = false :=
+  ⟨rfl, rfl, rfl, rfl⟩
+
+/-- the function of the pinned commit failed outside two narrow bands (each witness was replayed on the real
+    code before 62b5ed8): 0.123456789 ↦ 0.123457, 123.4567 ↦ 123.457, 1234567.0 ↦ 1.23457e+06,
+    0.00000015 ↦ `0.`, 9.9999996 ↦ `10.`, 0.00001 and 1e20 ↦ IndexError; the present one prints them exactly. -/
+theorem literal_legacy_counter_repaired :
+    (handleLegacy ([0], [1,2,3,4,5,6,7,8,9]) = .ok (some "0.123457".toList) ∧
+     handle ([0], [1,2,3,4,5,6,7,8,9]) = .ok (some "0.123456789".toList)) ∧
+    (handleLegacy ([1,2,3], [4,5,6,7]) = .ok (some "123.457".toList) ∧
+     handle ([1,2,3], [4,5,6,7]) = .ok (some "123.4567".toList)) ∧
+    (handleLegacy ([0], [0,0,0,0,0,0,1,5]) = .ok (some "0.".toList) ∧
+     handle ([0], [0,0,0,0,0,0,1,5]) = .ok (some "0.00000015".toList)) ∧
+    (handleLegacy ([9], [9,9,9,9,9,9,6]) = .ok (some "10.".toList) ∧
+     handle ([9], [9,9,9,9,9,9,6]) = .ok (some "9.9999996".toList)) ∧
+    (handleLegacy ([0], [0,0,0,0,1]) = .error .indexError ∧
+     handle ([0], [0,0,0,0,1]) = .ok (some "0.00001".toList)) ∧
+    (handleLegacy ([1,2,3,4,5,6], [5]) = .ok (some "123456".toList) ∧
+     handle ([1,2,3,4,5,6], [5]) = .ok (some "123456.5".toList)) := by
+  exact ⟨⟨counter_f_rounds, rfl⟩, ⟨counter_g_rounds, rfl⟩, ⟨counter_tiny, rfl⟩, ⟨counter_dangling_dot, rfl⟩,
+    ⟨counter_small_indexError, rfl⟩, ⟨rfl, rfl⟩⟩
+
+/- non-vacuity -/
 example : handle ([1,2], [5]) = .ok (some "12.5".toList) := rfl
-example : handle ([1,2,3,4,5,6,7,8,9], [1,2,3,4,5,6]) = .ok (some "123456789.123456".toList) := rfl
+example : inD ([1,2,3,4,5,6,7,8,9], [1,2,3,4,5,6]) = true ∧ canonF [1,2,3,4,5,6] ≠ [0] := by decide
 end Literals
 
 end VtlModel.C24
